@@ -5,6 +5,7 @@ mod mk;
 mod reg;
 mod model;
 mod tagjson;
+mod types;
 
 use gen::*;
 use lang::*;
@@ -631,6 +632,63 @@ fn gen_reg(a: &HashMap<String, String>) {
     println!("{}", serde_json::to_string(&json!({"events": nev, "histories": n})).unwrap());
 }
 
+fn replay_types_cmd(a: &HashMap<String, String>) -> i32 {
+    let path = a.get("in").expect("--in");
+    let out = a.get("out").cloned().unwrap_or_else(|| "/dev/null".into());
+    quiet_panics();
+    let f = BufReader::new(File::open(path).unwrap());
+    let mut ow = BufWriter::new(File::create(&out).unwrap());
+    let (mut n, mut bad) = (0u64, 0u64);
+    for line in f.lines() {
+        let line = line.unwrap();
+        if line.trim().is_empty() {
+            continue;
+        }
+        let v: Value = serde_json::from_str(&line).expect("vector json");
+        if v.get("hdr").is_some() {
+            continue;
+        }
+        n += 1;
+        let (obs, diffs) = match v["ev"].as_str().unwrap_or("") {
+            "type" => {
+                let lay: Vec<u8> = serde_json::from_value(v["lay"].clone()).unwrap();
+                let p: Vec<String> = serde_json::from_value(v["json"].clone()).unwrap();
+                let o = types::observe_type(v["prim"].as_str().unwrap(), &lay, &p);
+                let d = types::judge_type(&v, &o);
+                (o, d)
+            }
+            _ => (json!(null), vec!["unknown vector".to_string()]),
+        };
+        if !diffs.is_empty() {
+            bad += 1;
+            let src = format!("type depth={} prim={} lay={}", v["depth"], v["prim"], v["lay"]);
+            serde_json::to_writer(&mut ow, &json!({"vector": v, "src": src, "observed": obs, "diffs": diffs})).unwrap();
+            ow.write_all(b"\n").unwrap();
+        }
+    }
+    ow.flush().unwrap();
+    println!("{}", serde_json::to_string(&json!({"vectors": n, "mismatches": bad, "runs": n * 9})).unwrap());
+    if bad > 0 { 1 } else { 0 }
+}
+
+fn gen_types(a: &HashMap<String, String>) {
+    let seed: u64 = a.get("seed").and_then(|s| s.parse().ok()).unwrap_or(1);
+    let n: usize = a.get("n").and_then(|s| s.parse().ok()).unwrap_or(500);
+    let out = a.get("out").cloned().unwrap_or_else(|| ".".into());
+    let mut r = rng_from(seed);
+    quiet_panics();
+    write_ndjson::<Value>(&format!("{out}/schemes.ndjson"), &[]);
+    write_ndjson::<Value>(&format!("{out}/ctxs.ndjson"), &[]);
+    let mut tw = BufWriter::new(File::create(format!("{out}/trace.ndjson")).unwrap());
+    for k in 0..n {
+        let e = if k % 2 == 0 { types::gen_type_event(&mut r, k as u64) } else { types::gen_scheme_event(&mut r, k as u64) };
+        serde_json::to_writer(&mut tw, &e).unwrap();
+        tw.write_all(b"\n").unwrap();
+    }
+    tw.flush().unwrap();
+    println!("{}", serde_json::to_string(&json!({"events": n})).unwrap());
+}
+
 fn main() {
     let args: Vec<String> = std::env::args().collect();
     if args.len() < 2 {
@@ -651,6 +709,11 @@ fn main() {
         }
         "replay-hist" => replay_hist_cmd(&a),
         "replay-reg" => replay_reg_cmd(&a),
+        "replay-types" => replay_types_cmd(&a),
+        "gen-types" => {
+            gen_types(&a);
+            0
+        }
         "gen-reg" => {
             gen_reg(&a);
             0
